@@ -90,17 +90,13 @@ end
 
 /-- the pattern of an EXISTS as rdflib leaves it (never annotated: no lazy joins, `_vars` absent, only a top-level
     filter with `no_isolated_scope`) and for which "evaluate under the current solution" agrees with §18.6
-    `substitute`: triples, joins, UNION, GRAPH, OPTIONAL without condition, an EXISTS-free top filter. -/
+    `substitute`: triples, joins, UNION, GRAPH, an EXISTS-free top filter.  (OPTIONAL / MINUS / BIND / VALUES /
+    sub-select inside EXISTS: substitution and push-down differ or `substitute` is ambiguous.) -/
 def Alg.existsBody : Alg → Bool
   | .bgp _ => true
   | .join l a b => !l && a.existsBody && b.existsBody
   | .union a b => a.existsBody && b.existsBody
   | .graph _ p => p.existsBody
-  | .leftJoin a b e p1vars _ =>
-    a.existsBody && b.existsBody && p1vars.isNone &&
-    (match e with
-     | .const (.bool true) => true
-     | _ => false)
   | _ => false
 
 def Alg.existsOK : Alg → Bool
@@ -135,18 +131,31 @@ def Expr.safe : Expr → Bool
   | .exists _ p => p.existsOK
 end
 
-/-- operators covered by the PROVED push-down lemmas -/
+/-- operators covered by the PROVED push-down lemmas: all of them (`inFragment_true`); kept so that the harness and the
+    driver report it -/
 def Alg.inFragment : Alg → Bool
   | .bgp _ => true
   | .join _ a b => a.inFragment && b.inFragment
   | .union a b => a.inFragment && b.inFragment
-  | .filter e p _ _ => e.existsFree && p.inFragment
-  | .extend p _ e _ => e.existsFree && p.inFragment
+  | .filter _ p _ _ => p.inFragment
+  | .extend p _ _ _ => p.inFragment
   | .values _ _ => true
   | .project p _ => p.inFragment
   | .graph _ p => p.inFragment
   | .minus a b _ => a.inFragment && b.inFragment
-  | .leftJoin a b e _ _ => e.existsFree && a.inFragment && b.inFragment
+  | .leftJoin a b _ _ _ => a.inFragment && b.inFragment
+
+theorem Alg.inFragment_true : ∀ P : Alg, P.inFragment = true
+  | .bgp _ => rfl
+  | .join _ a b => by simp [Alg.inFragment, Alg.inFragment_true a, Alg.inFragment_true b]
+  | .union a b => by simp [Alg.inFragment, Alg.inFragment_true a, Alg.inFragment_true b]
+  | .filter _ p _ _ => by simp [Alg.inFragment, Alg.inFragment_true p]
+  | .extend p _ _ _ => by simp [Alg.inFragment, Alg.inFragment_true p]
+  | .values _ _ => rfl
+  | .project p _ => by simp [Alg.inFragment, Alg.inFragment_true p]
+  | .graph _ p => by simp [Alg.inFragment, Alg.inFragment_true p]
+  | .minus a b _ => by simp [Alg.inFragment, Alg.inFragment_true a, Alg.inFragment_true b]
+  | .leftJoin a b _ _ _ => by simp [Alg.inFragment, Alg.inFragment_true a, Alg.inFragment_true b]
 
 def Query.pattern : Query → Alg
   | .select _ p => p
